@@ -96,7 +96,7 @@ def replay(job):
             hooked.append("prehook" if "pre_hook" in (e.get("path") or "") else "posthook")
         elif e.get("ev") == "rewrite.write":
             hooked.append("write")
-    objs = [dict(name=e[1], argv=list(e[2])) for e in raw if e[0] == "cmd" and e[1] in ("tag", "tag_light", "push", "push_tag")]
+    objs = [dict(name=e[1], argv=list(e[2])) for e in raw if e[0] == "cmd" and e[1] in ("commit", "tag", "tag_light", "push", "push_tag")]
     return dict(ev="steps", case=conf, exit=r.exit, changed=before != after, log=log, old=OLD, new="1.2.4", exc=r.exc or "", hooked=hooked, objs=objs, remote_name=["origin", "upstream"][seed % 2],
                 dbg="%s: bumpver %s" % ({k: v for k, v in conf.items() if v not in (False, "unset", "absent", "none")}, " ".join(args)))
 
@@ -119,8 +119,8 @@ def run(ctx):
     drive.setup(hooks=False)
     tools = ctx.pick(["git"], ["git", "hg"])
     res = tlc.run(tlc.module_text("mc/MC_C10.tla"), "SPECIFICATION Spec\nCONSTANTS Tools = {%s}\n Extras = %s\n HookKinds = %s\nINVARIANT StepsAsConfigured\nINVARIANT ExpectedAgrees\nCHECK_DEADLOCK FALSE\n"
-                  % (", ".join('"%s"' % t for t in tools), ctx.pick("{FALSE}", "{FALSE, TRUE}"), ctx.pick('{"absent", "ok", "fail"}', '{"absent", "ok", "fail", "unstartable"}')), name="MC_C10", workers=16, timeout=3400, xmx="16g")
-    ctx.add_design(res, "MC_C10 full configuration product for %s (5 config triples x 27 flag sets x %d hook pairs x 2 hook sources x 2^6 x 8 failure points)" % ("/".join(tools), ctx.pick(9, 16)))
+                  % (", ".join('"%s"' % t for t in tools), ctx.pick("{FALSE}", "{FALSE, TRUE}"), '{"absent", "ok", "fail"}'), name="MC_C10", workers=16, timeout=6000, xmx="16g")          # ("unstartable" is the same as "fail" to the machine: HookFails; it is exercised by the conformance cases)
+    ctx.add_design(res, "MC_C10 full configuration product for %s (5 config triples x 27 flag sets x %d hook pairs x 2 hook sources x 2^7 x 8 failure points)" % ("/".join(tools), 9))
     if res.violation:
         ctx.violation(dict(clause="design:" + res.violation), case=dict(state=res.trace[-1:]), check="design")
     if res.distinct < 10 ** 6:
